@@ -206,9 +206,78 @@ func checkC14(w *World, r *Report) {
 	r.Rule("R14.1", "completion-report channels never block their sender forever", 2)
 	r.Rule("R14.2", "both ends closed after PipeData on every path (3 call sites)", 3)
 	r.Rule("R14.3", "stream accept loop terminates with the session (no error spin)", 1)
+	r.Rule("R14.4", "per-connection handlers close what they accepted", 2)
 	ruleR14_1(w, r)
 	ruleBothEndsClosed(w, r, "R14.2")
 	ruleAcceptErrorSpin(w, r, "R14.3")
+	c14Handlers(w, r)
+}
+
+// c14Handlers: R14.4 — the per-connection handlers close what they were given:
+// the client's HandleConnection closes the accepted local connection on every
+// path (or has handed it to a PipeData that closes both ends), and the server's
+// per-stream handler closes the stream when it returns (deferred).
+func c14Handlers(w *World, r *Report) {
+	pd := w.Func("internal/streams", "PipeData")
+	// client
+	hc := w.SSAFunc(w.Method("internal/client/listener", "AbstractListener", "HandleConnection"))
+	cd := w.Method("internal/client/listener", "AbstractListener", "ConnectDirectly")
+	key := "method:(*client/listener.AbstractListener).HandleConnection|closes-local"
+	if hc == nil || len(hc.Params) < 2 {
+		r.Undecided("R14.4", key, "-", "anchor unresolved")
+	} else {
+		conn := hc.Params[1]
+		bad := ""
+		npaths := 0
+		isEv := func(in ssa.Instruction) bool {
+			c, ok := in.(ssa.CallInstruction)
+			if !ok {
+				return false
+			}
+			if _, isGo := in.(*ssa.Go); isGo {
+				return false
+			}
+			return closeTarget(w, c) != nil || sCallee(c) == cd || sCallee(c) == pd
+		}
+		enumPaths(hc, nil, isEv, nil, func(e pathExit) {
+			if _, ok := e.Last.(*ssa.Return); !ok {
+				return
+			}
+			npaths++
+			closed := false
+			for _, ev := range e.State.Events {
+				c := ev.(ssa.CallInstruction)
+				if t := closeTarget(w, c); t != nil {
+					for _, root := range rootsOf(w, t) {
+						if root == ssa.Value(conn) {
+							closed = true
+						}
+					}
+				}
+				if sCallee(c) == cd {
+					// direct forward took the connection: ConnectDirectly returned true on this path
+					if cv, ok := ev.(ssa.Value); ok {
+						if t, known := e.State.Truth(cv); known && t {
+							closed = true // closed by PipeData inside ConnectDirectly (R14.2)
+						}
+					}
+				}
+			}
+			if !closed {
+				bad = "a path through HandleConnection returns without closing the accepted local connection (leaked descriptor per failed connection)"
+			}
+		})
+		r.Check(bad == "" && npaths > 0, "R14.4", key, w.Pos(hc.Pos()), fmt.Sprintf("%d returning path(s), each closes the local connection or handed it to the direct pipe", npaths), bad)
+	}
+	// server: per-stream handler defers the close of its stream
+	mu := w.SSAFunc(w.Method("internal/server", "ConnectionHandler", "multiplexToUpstream"))
+	key = "method:(*server.ConnectionHandler).multiplexToUpstream|closes-stream"
+	if mu == nil || len(mu.Params) < 2 {
+		r.Undecided("R14.4", key, "-", "anchor unresolved")
+		return
+	}
+	cl, _, ok := closedOnAllPaths(w, mu, nil, []ssa.Value{mu.Params[1]})
+	r.Check(ok && cl[0], "R14.4", key, w.Pos(mu.Pos()), "the accepted stream is closed on every path out of its handler", "the per-stream handler can return without closing the accepted stream (the peer never sees the end of a refused or failed logical connection)")
 }
 
 // ---------------------------------------------------------------- C15
